@@ -52,6 +52,98 @@ pub enum Ev {
     Stall,
 }
 
+/// The data buffer of scripted bodies: a `Buf` is not necessarily one contiguous slice.  In
+/// segmenting bodies a DATA frame is handed over as 2..3 non-contiguous segments; `chunk()` is
+/// only the first of them.
+#[derive(Clone, Debug, Default)]
+pub struct SegBuf {
+    segs: VecDeque<Bytes>,
+}
+
+impl SegBuf {
+    pub fn one(b: Bytes) -> SegBuf {
+        SegBuf { segs: VecDeque::from([b]) }
+    }
+    pub fn of(parts: Vec<Bytes>) -> SegBuf {
+        SegBuf { segs: parts.into() }
+    }
+    pub fn to_vec(&self) -> Vec<u8> {
+        self.segs.iter().flat_map(|b| b.iter().copied()).collect()
+    }
+}
+
+impl bytes::Buf for SegBuf {
+    fn remaining(&self) -> usize {
+        self.segs.iter().map(|b| b.len()).sum()
+    }
+    fn chunk(&self) -> &[u8] {
+        self.segs.iter().find(|b| !b.is_empty()).map(|b| &b[..]).unwrap_or(&[])
+    }
+    fn advance(&mut self, mut cnt: usize) {
+        while cnt > 0 {
+            let front = self.segs.front_mut().expect("advance past the end of a SegBuf");
+            if cnt >= front.len() {
+                cnt -= front.len();
+                self.segs.pop_front();
+            } else {
+                bytes::Buf::advance(front, cnt);
+                cnt = 0;
+            }
+        }
+        while matches!(self.segs.front(), Some(b) if b.is_empty()) {
+            self.segs.pop_front();
+        }
+    }
+}
+
+/// A scripted body whose DATA frames are handed over as `SegBuf`s (for consumers that accept any
+/// `Buf`: `Streaming::new_*`, tonic-web); whether this body segments at all is drawn once.
+pub struct Segmented {
+    inner: SimBody,
+    segment: bool,
+}
+
+impl Segmented {
+    pub fn new(inner: SimBody) -> Segmented {
+        let segment = inner.sim.chance(1, 3);
+        Segmented { inner, segment }
+    }
+}
+
+impl Body for Segmented {
+    type Data = SegBuf;
+    type Error = BoxError;
+    fn poll_frame(mut self: Pin<&mut Self>, cx: &mut Context<'_>) -> Poll<Option<Result<Frame<SegBuf>, BoxError>>> {
+        let this = &mut *self;
+        match Pin::new(&mut this.inner).poll_frame(cx) {
+            Poll::Pending => Poll::Pending,
+            Poll::Ready(None) => Poll::Ready(None),
+            Poll::Ready(Some(Err(e))) => Poll::Ready(Some(Err(e))),
+            Poll::Ready(Some(Ok(f))) => {
+                let (sim, segment, name) = (this.inner.sim.clone(), this.segment, this.inner.name);
+                Poll::Ready(Some(Ok(f.map_data(|mut b: Bytes| {
+                    if segment && b.len() >= 2 && sim.chance(2, 3) {
+                        let a = b.split_to(sim.range(1, b.len() as u64 - 1) as usize);
+                        let mut parts = vec![a];
+                        if b.len() >= 2 && sim.chance(1, 3) {
+                            parts.push(b.split_to(sim.range(1, b.len() as u64 - 1) as usize));
+                        }
+                        parts.push(b);
+                        sim.fault("body-data-segmented");
+                        sim.ev(|| format!("body[{name}]:   handed over as {} non-contiguous segments {:?}", parts.len(), parts.iter().map(|p| p.len()).collect::<Vec<_>>()));
+                        SegBuf::of(parts)
+                    } else {
+                        SegBuf::one(b)
+                    }
+                }))))
+            }
+        }
+    }
+    fn is_end_stream(&self) -> bool {
+        self.inner.is_end_stream()
+    }
+}
+
 /// Scripted `http_body::Body`.
 pub struct SimBody {
     sim: Sim,
@@ -164,6 +256,9 @@ pub struct SimSource<T> {
     done: bool,
     pub polls_after_done: u32,
     consec_pending: u32,
+    /// what this (unfused) stream does when polled again after it returned `None`: a `Stream` may
+    /// then "panic, block forever, or cause other kinds of problems"; this one blocks forever
+    after_end_blocks: bool,
 }
 
 impl<T> SimSource<T> {
@@ -175,6 +270,7 @@ impl<T> SimSource<T> {
             done: false,
             polls_after_done: 0,
             consec_pending: 0,
+            after_end_blocks: sim.chance(1, 2),
         }
     }
 }
@@ -186,6 +282,11 @@ impl<T: Unpin> Stream for SimSource<T> {
         this.sim.step();
         if this.done {
             this.polls_after_done += 1;
+            this.sim.probe("source-polled-after-end");
+            if this.after_end_blocks {
+                this.sim.ev(|| "source: polled again after it returned None -> this unfused stream blocks forever".to_string());
+                return Poll::Pending;
+            }
             if this.polls_after_done > AFTER_END_POLL_CAP {
                 std::panic::panic_any(SimAbort {
                     class: "busy-loop-on-finished-source".into(),
@@ -300,11 +401,12 @@ pub struct MsgSource<T> {
     done: bool,
     polls_after_done: u32,
     consec_pending: u32,
+    after_end_blocks: bool,
 }
 
 impl<T> MsgSource<T> {
     pub fn new(sim: &Sim, items: Vec<T>, pending_pct: u64) -> Self {
-        MsgSource { sim: sim.clone(), items: items.into(), pending_pct, done: false, polls_after_done: 0, consec_pending: 0 }
+        MsgSource { sim: sim.clone(), items: items.into(), pending_pct, done: false, polls_after_done: 0, consec_pending: 0, after_end_blocks: sim.chance(1, 2) }
     }
 }
 
@@ -315,6 +417,11 @@ impl<T: Unpin> Stream for MsgSource<T> {
         this.sim.step();
         if this.done {
             this.polls_after_done += 1;
+            this.sim.probe("source-polled-after-end");
+            if this.after_end_blocks {
+                this.sim.ev(|| "request source: polled again after it returned None -> this unfused stream blocks forever".to_string());
+                return Poll::Pending;
+            }
             if this.polls_after_done > AFTER_END_POLL_CAP {
                 std::panic::panic_any(SimAbort { class: "busy-loop-on-finished-source".into(), detail: format!("request message source polled {} times after it had ended", this.polls_after_done) });
             }
